@@ -37,13 +37,16 @@ def sum (a b : Matrix) : Matrix :=
 /-- `matrix.__infty`: the ∞-monomials of a polynomial, as a polynomial (0 if none) -/
 def inftyPart (p : Poly) : Poly := Poly.ofList ((p.filter (fun m => m.scalar == .i)).map Mono.copy)
 
-/-- `matrix_prod`: left fold from the shared ZERO polynomial; each summand carries the
-    ∞-monomials of both factors (0 × ∞ = ∞) -/
+/-- `matrix_prod`: left fold from the shared ZERO polynomial, then the ∞-monomials of row `i`
+    of the left factor and of column `j` of the right factor are added (0 × ∞ = ∞) -/
 def prod (a b : Matrix) : Matrix :=
+  let rowInf : List Poly := a.map fun row => row.foldl (fun t p => Poly.add t (inftyPart p)) Poly.zero
+  let colInf : List Poly := (List.range b.length).map fun j =>
+    b.foldl (fun t row => Poly.add t (inftyPart (row.getD j Poly.zero))) Poly.zero
   (List.range a.length).map fun i => (List.range b.length).map fun j =>
-    (List.range a.length).foldl (fun total k =>
-      Poly.add (Poly.add (Poly.add total (Poly.times (get a i k) (get b k j)))
-        (inftyPart (get a i k))) (inftyPart (get b k j))) Poly.zero
+    Poly.add (Poly.add
+      ((List.range a.length).foldl (fun total k => Poly.add total (Poly.times (get a i k) (get b k j))) Poly.zero)
+      (rowInf.getD i Poly.zero)) (colInf.getD j Poly.zero)
 
 /-- `matrix.resize` -/
 def resize (m : Matrix) (newSize : Nat) : Matrix :=
